@@ -10,6 +10,7 @@ import (
 	"verif/mc/drive"
 	"verif/mc/engine"
 	"verif/mc/refcfg"
+	"verif/mc/refx509"
 	"verif/mc/simfs"
 )
 
@@ -29,6 +30,7 @@ type c06Case struct {
 	To      int  `json:"to,omitempty"`
 	Through bool `json:"through,omitempty"`
 	// bytesfield
+	Req   bool   `json:"req,omitempty"`  // bytesfield: the entity exists as a certificate request only, under a CA
 	Wrap  int    `json:"wrap,omitempty"` // the base64 text is wrapped into lines of this many characters
 	Field string `json:"field,omitempty"`
 	Len   int    `json:"len,omitempty"`
@@ -199,6 +201,12 @@ func c06Enumerate(tier string, yield func(any)) {
 	for _, f := range []string{"issuerUniqueId", "subjectUniqueId", "manip.signatureValue", "manip.tbsPublicKey", "all-four-with-different-values"} {
 		for _, l := range append([]int{0}, c06BodyLens...) {
 			yield(&c06Case{Kind: "bytesfield", Field: f, Len: l})
+		}
+	}
+	// the byte-valued manipulations on an entity that exists as a certificate request only (its key bits come from the request unless manipulated)
+	for _, f := range []string{"manip.signatureValue", "manip.tbsPublicKey", "all-four-with-different-values"} {
+		for _, l := range []int{0, 1, 4, 128, 1024} {
+			yield(&c06Case{Kind: "bytesfield", Field: f, Len: l, Req: true})
 		}
 	}
 	// the same fields and a raw extension body with the base64 text wrapped into lines of 64 or 76 characters
@@ -478,8 +486,20 @@ func c06BytesField(x *engine.Ctx, c *c06Case) {
 		cfg.Exts = []refcfg.Ext{{Kind: refcfg.KADM, ADM: &refcfg.Admission{Admissions: []refcfg.Admissions{{ProfessionInfos: []refcfg.ProfessionInfo{{ProfessionItems: []string{"I"}, AddProfessionInfo: raw}}}}}}}
 	}
 	d := &Dir{Certs: []*refcfg.CertCfg{cfg}}
-	g := Generate(d, func(w *simfs.World) { w.Put("ent.pem", FixtureKeyPEM("P-224-0")) }, drive.Default)
-	x.Nontrivial(fmt.Sprintf("bytes %s %d %d", c.Field, c.Len, c.Wrap))
+	if c.Req {
+		cfg.Issuer = "ca"
+		d.Certs = []*refcfg.CertCfg{{Path: "ca.yaml", Subject: "CN=bytes ca", KeyAlg: "P-256"}, cfg}
+	}
+	g := Generate(d, func(w *simfs.World) {
+		if c.Req {
+			k, _ := refx509.ParsePKCS8(FixtureKeyDER("P-224-0"))
+			w.Put("ent.pem", refx509.EncodePem("CERTIFICATE REQUEST", refx509.BuildCSR(k, "bytes", nil)))
+			w.Put("ca.pem", FixtureKeyPEM("P-256-0"))
+			return
+		}
+		w.Put("ent.pem", FixtureKeyPEM("P-224-0"))
+	}, drive.Default)
+	x.Nontrivial(fmt.Sprintf("bytes %s %d %d %v", c.Field, c.Len, c.Wrap, c.Req))
 	if !g.Res.OK() {
 		x.Violation("C06/bytes-field/run-failed field="+c.Field, fmt.Sprintf("len %d: %v %s", c.Len, g.Res.Err(), g.Res.Panic))
 		return
@@ -493,7 +513,7 @@ func c06BytesField(x *engine.Ctx, c *c06Case) {
 	for _, df := range diffs {
 		if df.Owner == owner || strings.Contains(df.Class, "uid/") || strings.Contains(df.Class, "signature-value") || strings.Contains(df.Class, "spki-key") ||
 			strings.Contains(df.Class, "explicit-key-id") || strings.Contains(df.Class, "addProfessionInfo") {
-			x.Violation(fmt.Sprintf("C06/bytes-field/field=%s len=%s", c.Field, c06LenClass(c.Len)), df.Detail)
+			x.Violation(fmt.Sprintf("C06/bytes-field/field=%s len=%s%s", c.Field, c06LenClass(c.Len), map[bool]string{true: " request-based", false: ""}[c.Req]), df.Detail)
 		}
 	}
 	x.Outcome("bytes-field " + c.Field)
@@ -503,7 +523,7 @@ func init() {
 	register(&engine.Check{
 		ID:          "C06",
 		Level:       "exploration",
-		Rule:        "11 extension kinds x critical {omitted,false,true} x body {raw !null, raw !empty, raw !binary of 1,2,3,127,128,767,768,769,1024,65536 bytes, simplest content}; every list of length 0 and 2 over kind x critical (33^2); all 12 rotations of a list holding each kind once plus a repeated type (each also edited into an entity that was generated with the reverse order, so that it is re-issued through change detection), each also with a .version manipulation of 0..4 (and every kind alone with each), since the list does not depend on the version number written; the effective list under a profile: every profile list of length 1..2 over 4 entries (two SAN forms, EKU, a custom extension with the SAN OID) x override x optional against every certificate list of length 0..3 over the same entries (quick thins the largest block to a quarter); every !binary payload length 1..4096 (quick) / 1..65536 (thorough) at ParseConfig->Builder->Compile level and 1..1100 / 1..4096 through whole certificates; unique ids, signature value, public-key bits, authority key id and addProfessionInfo at the boundary lengths. Oracle: same list, order, OIDs, critical exactly as configured (absent in DER when false/omitted), raw bodies byte-identical. non-trivial = distinct case (payload lengths distinct by construction); the byte-valued fields and a raw extension body also with the base64 text wrapped into lines of 64 or 76 characters (10 lengths); every ordered pair of different kinds carrying the same raw body and critical flag",
+		Rule:        "11 extension kinds x critical {omitted,false,true} x body {raw !null, raw !empty, raw !binary of 1,2,3,127,128,767,768,769,1024,65536 bytes, simplest content}; every list of length 0 and 2 over kind x critical (33^2); all 12 rotations of a list holding each kind once plus a repeated type (each also edited into an entity that was generated with the reverse order, so that it is re-issued through change detection), each also with a .version manipulation of 0..4 (and every kind alone with each), since the list does not depend on the version number written; the effective list under a profile: every profile list of length 1..2 over 4 entries (two SAN forms, EKU, a custom extension with the SAN OID) x override x optional against every certificate list of length 0..3 over the same entries (quick thins the largest block to a quarter); every !binary payload length 1..4096 (quick) / 1..65536 (thorough) at ParseConfig->Builder->Compile level and 1..1100 / 1..4096 through whole certificates; unique ids, signature value, public-key bits, authority key id and addProfessionInfo at the boundary lengths (signature value and public-key bits also on an entity that exists as a certificate request only). Oracle: same list, order, OIDs, critical exactly as configured (absent in DER when false/omitted), raw bodies byte-identical. non-trivial = distinct case (payload lengths distinct by construction); the byte-valued fields and a raw extension body also with the base64 text wrapped into lines of 64 or 76 characters (10 lengths); every ordered pair of different kinds carrying the same raw body and critical flag",
 		Bound:       map[string]string{"list length": "0..2 exhaustive, 12 by rotation", "payload length": "every length up to 4096 / 65536"},
 		Assumptions: []string{"payload contents are one deterministic pattern per length", "subjectKeyIdentifier content !binary may or may not be wrapped in an OCTET STRING (documentation and code disagree)"},
 		Budget:      budgets(quickBudget, thoroughBudget),
